@@ -7,6 +7,9 @@ package searchdomains
 // This is an searchdomains plugin that adds default DNS search domains.
 
 import (
+	"fmt"
+	"strings"
+
 	"github.com/coredhcp/coredhcp/handler"
 	"github.com/coredhcp/coredhcp/logger"
 	"github.com/coredhcp/coredhcp/plugins"
@@ -23,11 +26,11 @@ var log = logger.GetLogger("plugins/searchdomains")
 // plugins section. For searchdomains:
 //
 // server6:
+//
 //   listen: '[::]547'
 //   - searchdomains: domain.a domain.b
 //   - server_id: LL aa:bb:cc:dd:ee:ff
 //   - file: "leases.txt"
-//
 var Plugin = plugins.Plugin{
 	Name:   "searchdomains",
 	Setup6: setup6,
@@ -50,13 +53,32 @@ func copySlice(original []string) []string {
 	return copied
 }
 
+// checkDomains rejects domain names that cannot be encoded (RFC 1035: labels are at
+// most 63 bytes long)
+func checkDomains(domains []string) error {
+	for _, domain := range domains {
+		for _, label := range strings.Split(domain, ".") {
+			if len(label) > 63 {
+				return fmt.Errorf("invalid search domain %q: label longer than 63 bytes", domain)
+			}
+		}
+	}
+	return nil
+}
+
 func setup6(args ...string) (handler.Handler6, error) {
+	if err := checkDomains(args); err != nil {
+		return nil, err
+	}
 	v6SearchList = args
 	log.Printf("Registered domain search list (DHCPv6) %s", v6SearchList)
 	return domainSearchListHandler6, nil
 }
 
 func setup4(args ...string) (handler.Handler4, error) {
+	if err := checkDomains(args); err != nil {
+		return nil, err
+	}
 	v4SearchList = args
 	log.Printf("Registered domain search list (DHCPv4) %s", v4SearchList)
 	return domainSearchListHandler4, nil
